@@ -310,7 +310,10 @@ QuiescePersistent ==
     /\ Ev.ev = "QuiescePersistent"
     /\ On("C07") =>
           /\ s.relsd = s.pops
-          /\ AckedKeys \subseteq s.committed.keys    \* every acknowledged upload is covered by a completed commit
+          \* every acknowledged upload whose block is still in the list is covered by a completed commit (blocks are
+          \* numbered in allocation order and popped oldest first, so block b has been rotated out iff b <= pops;
+          \* an upload whose block is gone has nothing left to commit)
+          /\ {k \in AckedKeys : LET b == Get0(s.lastPut, k, NoPut).blk IN b < 0 \/ b > s.pops} \subseteq s.committed.keys
     /\ s' = s
 
 Crash ==
